@@ -1,7 +1,7 @@
 """GameSpy 3 family (`gamespy::three::query` = entry gs3, `query_vars` = entry gs3vars): how the generic property
 runners drive it."""
 
-FAMILY = dict(send_units=2, 
+FAMILY = dict(send_units=1,  # C13_gs3_send_bound: the data request is paid for by the challenge reply
     name="gs3", nargs=2, gen="gs3", retries=1, port=0, decode_property="C04", entry="gs3",
     describe=("GameSpy 3: variables in random order with optional minplayers/numplayers/tournament and extra variables, "
               "0-64 players, 0-8 teams, optional pid column, columns sliced into field sections with offsets (1-28 rows "
